@@ -167,7 +167,7 @@ theorem housekeep_spec (t : Table) (now : Int) : sweepOk t now (t.housekeep now)
     carries the timeout `now + claimTimeout` -/
 theorem claims_expire (t : Table) (now : Int) : ∀ e ∈ (t.housekeep now).claims, e.timeout ≥ now := by
   intro e he
-  simp only [housekeep, List.mem_filter, decide_eq_true_eq] at he
+  simp only [housekeep, Generated.claimLive, List.mem_filter, decide_eq_true_eq] at he
   exact he.2
 
 /-- the sweep at time 100 drops the claim that expired at 50 and nothing else -/
